@@ -990,6 +990,9 @@ pub struct Feat {
     pub nested: bool,
     /// one initial fact whose type does not fit its field (oracle: Undefined, skipped)
     pub type_mixed: bool,
+    /// a string value that contains a comparison-operator token (`a>=b`), as an initial fact and
+    /// as the literal of the goal
+    pub op_in_string: bool,
 }
 
 impl Feat {
@@ -1000,6 +1003,7 @@ impl Feat {
             salience: rng.chance(1, 3),
             nested: rng.chance(1, 6),
             type_mixed: rng.chance(1, 40),
+            op_in_string: rng.chance(1, 30),
         }
     }
 }
@@ -1122,6 +1126,14 @@ pub struct Plan {
     pub chain: Vec<(String, Lit)>,
     /// fields meant to be initial side facts
     pub side: Vec<(String, Lit)>,
+    /// (feature op_in_string) a string field with a value containing an operator token
+    pub hostile: Option<(String, Lit)>,
+}
+
+pub const HOSTILE_STRINGS: [&str; 2] = ["a>=b", "x<=y"];
+
+pub fn has_op_token(l: &Lit) -> bool {
+    matches!(l, Lit::S(s) if [">=", "<=", "==", "!="].iter().any(|t| s.contains(t)))
 }
 
 pub fn gen_plan(rng: &mut Rng, feat: Feat) -> Plan {
@@ -1249,7 +1261,16 @@ pub fn gen_plan(rng: &mut Rng, feat: Feat) -> Plan {
             r.salience = rng.range(1, 5) as i32;
         }
     }
-    Plan { kb: Kb { rules }, feat, chain, side }
+    let hostile = if feat.op_in_string {
+        // a string side field when there is one (no rule of the chain writes it)
+        side.iter()
+            .chain(chain.iter())
+            .find(|(f, _)| field_ty(f) == Ty::Str)
+            .map(|(f, _)| (f.clone(), Lit::S(rng.pick(&HOSTILE_STRINGS).to_string())))
+    } else {
+        None
+    };
+    Plan { kb: Kb { rules }, feat, chain, side, hostile }
 }
 
 pub fn random_cond(rng: &mut Rng, feat: &Feat, depth: usize) -> Cond {
@@ -1296,6 +1317,12 @@ pub fn gen_facts(rng: &mut Rng, plan: &Plan) -> FactsG {
             Lit::S(_) => Lit::I(1),
         };
     }
+    if let Some((f, v)) = &plan.hostile {
+        if rng.chance(7, 10) {
+            values.retain(|(k, _)| k != f);
+            values.push((f.clone(), v.clone()));
+        }
+    }
     rng.shuffle(&mut values);
     FactsG { nested: plan.feat.nested, values }
 }
@@ -1303,6 +1330,11 @@ pub fn gen_facts(rng: &mut Rng, plan: &Plan) -> FactsG {
 pub fn gen_goal(rng: &mut Rng, plan: &Plan) -> Atom {
     // goals use the six comparison operators of the query grammar
     let goal_feat = Feat { str_preds: false, ..plan.feat };
+    if let Some((f, v)) = &plan.hostile {
+        if rng.chance(1, 3) {
+            return Atom { field: f.clone(), op: if rng.chance(3, 4) { Op::Eq } else { Op::Ne }, lit: v.clone() };
+        }
+    }
     if rng.chance(13, 20) {
         let i = if rng.chance(2, 3) { plan.chain.len() - 1 } else { rng.below(plan.chain.len()) };
         let (f, v) = &plan.chain[i];
@@ -1450,6 +1482,35 @@ pub fn query_simplifications(c: &QCase) -> Vec<QCase> {
             if is_int_eq(a) && a.op == Op::Ne {
                 a.op = Op::Gt;
                 any = true;
+            }
+        }
+        if any {
+            out.push(n);
+        }
+    }
+    // strip operator tokens from string values (a hostile feature): the same plain string everywhere
+    {
+        let plain = |l: &mut Lit| -> bool {
+            if has_op_token(l) {
+                *l = Lit::S("plain".to_string());
+                true
+            } else {
+                false
+            }
+        };
+        let mut n = c.clone();
+        let mut any = plain(&mut n.goal.lit);
+        for (_, v) in &mut n.facts.values {
+            any |= plain(v);
+        }
+        for r in &mut n.kb.rules {
+            let mut atoms = Vec::new();
+            r.cond.atoms_mut(&mut atoms);
+            for a in atoms {
+                any |= plain(&mut a.lit);
+            }
+            for (_, v) in &mut r.sets {
+                any |= plain(v);
             }
         }
         if any {
